@@ -137,6 +137,23 @@ def run(ctx):
             if got != v or type(got) is not type(v):
                 res.violations.append({"what": "a blob written by %s and recorded under the legacy reference %s is decoded as %r instead of %r" % (current, legacy, got, v),
                                        "input": {"legacy_reference": legacy, "value": repr(v)}, "kf": None})
+            # a legacy blob is then kept at a path, under every commit type
+            for ct in ("FULL", "LINK_ONLY", "NO_COMMIT"):
+                st2 = make_dbfs_store(d, ct)
+                res.evaluations += 1
+                try:
+                    st2.sync_paths(OrderedDict([("/legacy/" + ct.lower(), "klegacy")]))
+                    ok = True
+                    err = None
+                except BaseException as e:
+                    ok, err = False, "%s: %s" % (type(e).__name__, str(e)[:80])
+                data = files_under(os.path.join(d, "dds_data")) if os.path.isdir(os.path.join(d, "dds_data")) else {}
+                rec = "_dds_meta/legacy/" + ct.lower()
+                cp = "legacy/" + ct.lower()
+                want_rec, want_cp = ct != "NO_COMMIT", ct == "FULL"
+                if not ok or (rec in data) != want_rec or (cp in data) != want_cp:
+                    res.violations.append({"what": "committing a path to a blob recorded under the legacy reference %s with commit type %s: %s; record written %s, copy written %s" % (
+                        legacy, ct, err or "no error", rec in data, cp in data), "input": {"legacy_reference": legacy, "commit": ct}, "kf": None})
         # ---- operation sequences vs the model ----
         reqs, meta_l = [], []
         for i in range(120 if thorough else 30):
